@@ -220,6 +220,24 @@ def main(argv=None):
             faults.append(("-", "-", f"obligation count collapsed: {proof_ok + bounded_ok} < 80% of baseline {baseline['proved']}"))
     if proof_total + bounded_total == 0:
         faults.append(("-", "-", "zero obligations generated"))
+    # the assumed permutation lemma: checked by Lean in the thorough tier
+    external = []
+    if args.tier == "thorough" and any(s.startswith("lemma:permutation") for r in results for s in r["stubs"]):
+        import subprocess, shutil
+        lf = os.path.join(ROOT, "lean", "PermSum.lean")
+        t1 = time.time()
+        if shutil.which("lean") is None:
+            external.append({"file": "lean/PermSum.lean", "checker": "lean", "status": "not run (lean not on PATH)"})
+        else:
+            try:
+                pr = subprocess.run(["lean", lf], capture_output=True, text=True, timeout=1500)
+                ok = pr.returncode == 0 and "error" not in pr.stdout and "sorry" not in pr.stdout
+                external.append({"file": "lean/PermSum.lean", "checker": "lean 4 + Mathlib", "theorems": ["wsum_eq_sum", "wsum_perm"],
+                                 "status": "accepted" if ok else "REJECTED", "seconds": round(time.time() - t1, 1), "output": (pr.stdout + pr.stderr)[-400:]})
+                if not ok:
+                    faults.append(("lean/PermSum.lean", "-", "the Lean proof of the permutation lemma is not accepted: " + (pr.stdout + pr.stderr)[-300:]))
+            except subprocess.TimeoutExpired:
+                external.append({"file": "lean/PermSum.lean", "checker": "lean 4 + Mathlib", "status": "timeout"})
     if faults and exit_code == 0:
         exit_code = 3
     wall = time.time() - t0
@@ -259,6 +277,7 @@ def main(argv=None):
                            "proved": sum(1 for o in r["obligations"] if o["status"] == "proved"), "solver_s": round(r["solver_s"], 3),
                            "wall_s": r["wall_s"], "bounded": vc.REGISTRY[r["contract"]].bounded} for r in results],
             "obligations_by_kind": by_kind,
+            "external_lemmas": external,
             "backend": {"z3": __import__("z3").get_version_string(), "solver_seconds": solver_s},
             "stubs_used": stubs,
             "standin_contracts": sorted({r["contract"] for r in results if vc.REGISTRY[r["contract"]].standin}),
@@ -312,11 +331,20 @@ def trusted_base(stubs):
 
 
 def assumptions(stubs):
-    return ["floats are real numbers (no rounding/overflow) in every clause that adds, multiplies or divides (mode R); comparisons are exact",
+    extra = []
+    if any(s.startswith("lemma:permutation") for s in stubs):
+        extra.append("ASSUMED LEMMA (not discharged by z3): a weighted count over (data[p], weights[p]) equals the one over (data, weights) "
+                     "for a permutation p -- finite sums are invariant under permutation (stated and proved in /verif/lean/PermSum.lean, "
+                     "checked by `lean` in the thorough tier; the transcription between the z3 encoding and the Lean statement is trusted)")
+    if any(s in ("np.argsort",) for s in stubs):
+        extra.append("np.argsort on arrays of symbolic extent: assumed to return a permutation of 0..n-1 that sorts its argument")
+    return extra + ["floats are real numbers (no rounding/overflow) in every clause that adds, multiplies or divides (mode R); comparisons are exact",
             "Python ints are unbounded (stand in for int64 contents)",
             "numpy / builtins / dataclasses / contextvars stubs state the documented behaviour (trusted): " + ", ".join(stubs),
             "partial correctness: termination is not proved",
-            "exceptions that no stub declares (MemoryError, ...) are not modelled"]
+            "exceptions that no stub declares (MemoryError, ...) are not modelled",
+            "loops over arrays of symbolic extent are cut at sidecar invariants (inv-entry / inv-step obligations); inductive lemmas are proved "
+            "by an explicit induction scheme (lemma-base / lemma-step obligations): the induction principle over the naturals is trusted"]
 
 
 def do_replay(prop, path):
